@@ -14,7 +14,7 @@ def with_dup(b: Bytes, flag: bool) -> Bytes:
 @spec
 def timer_for(self: Ref['mqtt.client.pubsubs.MQTTProtocol'], r: Ref['obj'], f: int) -> bool:
     """r.alarm is a timer created by this call: ACTIVE, calling f(r) on self"""
-    return (isa(r.alarm, 'DelayedCall') and is_fresh(r.alarm) and r.alarm.t_status == 0 and r.alarm.t_fn == f
+    return (isa(r.alarm, 'DelayedCall') and is_fresh(r.alarm) and is_int(r.alarm.t_status) and r.alarm.t_status == 0 and is_int(r.alarm.t_fn) and r.alarm.t_fn == f
             and r.alarm.t_owner == self and r.alarm.t_arg == r and is_real(r.alarm.t_delay))
 
 
@@ -31,7 +31,7 @@ def _(self: Ref['mqtt.client.pubsubs.MQTTProtocol'], request: Ref['mqtt.pdu.SUBS
     requires(isa(request.interval, 'mqtt.client.interval.Interval') and wf_interval(request.interval))
     modifies(request.encoded, request.alarm, request.interval._value, self.transport.tr_out, allocates())
     ensures(request.encoded == with_dup(old(as_bytes(request.encoded)), dup and self._version == v31))
-    ensures(out(self) == old(out(self)) + lb(request.encoded))
+    ensures(is_list_bytes(self.transport.tr_out) and out(self) == old(out(self)) + lb(request.encoded))
     ensures(timer_for(self, request, fn('mqtt.client.pubsubs.MQTTProtocol._subscribeError')))
     ensures(num(request.alarm.t_delay) >= request.interval.initial)
     ensures(wf_interval(request.interval))
@@ -44,7 +44,7 @@ def _(self: Ref['mqtt.client.pubsubs.MQTTProtocol'], request: Ref['mqtt.pdu.UNSU
     requires(isa(request.interval, 'mqtt.client.interval.Interval') and wf_interval(request.interval))
     modifies(request.encoded, request.alarm, request.interval._value, self.transport.tr_out, allocates())
     ensures(request.encoded == with_dup(old(as_bytes(request.encoded)), dup and self._version == v31))
-    ensures(out(self) == old(out(self)) + lb(request.encoded))
+    ensures(is_list_bytes(self.transport.tr_out) and out(self) == old(out(self)) + lb(request.encoded))
     ensures(timer_for(self, request, fn('mqtt.client.pubsubs.MQTTProtocol._unsubscribeError')))
     ensures(num(request.alarm.t_delay) >= request.interval.initial)
     ensures(wf_interval(request.interval))
@@ -60,8 +60,8 @@ def _(self: Ref['mqtt.client.pubsubs.MQTTProtocol'], request: Ref['mqtt.pdu.PUBL
     modifies(request.encoded, request.dup, request.alarm, request.interval._value, request.interval._k,
              self.transport.tr_out, allocates())
     ensures(request.encoded == with_dup(old(as_bytes(request.encoded)), dup))
-    ensures(request.dup == dup)
-    ensures(out(self) == old(out(self)) + lb(request.encoded))
+    ensures(is_bool(request.dup) and request.dup == dup)
+    ensures(is_list_bytes(self.transport.tr_out) and out(self) == old(out(self)) + lb(request.encoded))
     ensures(implies(not is_none(request.interval),
                     timer_for(self, request, fn('mqtt.client.pubsubs.MQTTProtocol._publishError'))
                     and num(request.alarm.t_delay) >= request.interval.initial and wf_linear(request.interval)))
@@ -75,9 +75,9 @@ def _(self: Ref['mqtt.client.pubsubs.MQTTProtocol'], reply: Ref['mqtt.pdu.PUBREL
     requires(isa(reply.interval, 'mqtt.client.interval.Interval') and wf_interval(reply.interval))
     modifies(reply.encoded, reply.dup, reply.alarm, reply.interval._value, self.transport.tr_out, allocates())
     ensures(reply.encoded == with_dup(old(as_bytes(reply.encoded)), dup and self._version == v31))
-    ensures(implies(self._version == v31, reply.dup == dup))
+    ensures(implies(self._version == v31, is_bool(reply.dup) and reply.dup == dup))
     ensures(implies(not (self._version == v31), unchanged(reply.dup)))
-    ensures(out(self) == old(out(self)) + lb(reply.encoded))
+    ensures(is_list_bytes(self.transport.tr_out) and out(self) == old(out(self)) + lb(reply.encoded))
     ensures(timer_for(self, reply, fn('mqtt.client.pubsubs.MQTTProtocol._pubrelError')))
     ensures(num(reply.alarm.t_delay) >= reply.interval.initial)
     ensures(wf_interval(reply.interval))
